@@ -259,6 +259,14 @@ struct EnvEngine : Engine {
 			p.par["keyword_prefix"] = "1";
 			return;
 		}
+		if (r.chance(1, 25)) {
+			/* dzone in transition mode with a bare time: the date comes from --base */
+			a = {"dzone", r.chance(1, 2) ? "--next" : "--prev", zs[r.below(6)], rtime(r), "--base", inv::rand_base(r)};
+			if (r.chance(1, 3))
+				a.insert(a.begin() + 1, "--prev");
+			p.par["with_base"] = "1";
+			return;
+		}
 		if (k < 14) {
 			a = {"dconv", "-f", ofmts[r.below(9)]};
 			size_t n = (size_t)r.range(1, 4);
